@@ -351,8 +351,72 @@ class ArgumentsFor(JoinArguments):
         return [('no-clash', z3.Not(self.clash(S))), ('union', z3.And(has(S.a, S.sa, S.da), has(S.b, S.sb, S.db), only))]
 
 
+class MonomialDerivative(Contract):
+    """evaluable.Monomial._derivative (the derivative of a factored polynomial): the scatter index of the contribution of
+    a multi-dimensional argument is its ROW-MAJOR ravel index, and the scatter length is the argument's size:
+        Inflate(Diagonalize(m), sum_i idx_i * prod_{j>i} len_j, prod_j len_j)  then  unravel(..., arg.shape)."""
+    prop = PROP
+    fn = 'evaluable:Monomial._derivative'
+    bounded = 'one argument of rank 1..3 (symbolic lengths and index values), power 1'
+
+    def __init__(self, rank):
+        self.rank = rank
+        self.label = 'arg.ndim=%d' % rank
+
+    def setup(self, cx):
+        from contracts.ravel import ir
+        r = self.rank
+        lens = [ir(cx, 'len%d' % k, 1) for k in range(r)]
+        idx = [ir(cx, 'idx%d' % k, 0) for k in range(r)]
+        arg = SObj('Array', attrs={'ndim': r, 'shape': tuple(lens)}, classes=('Array',))
+        values = SObj('Array', attrs={'shape': (SOpaque('n'),), 'dtype': SOpaque('dtype')}, classes=('Array',))
+        me = SObj('Monomial', attrs=dict(values=values, args=(arg,), indices=(tuple(idx),), powers=(1,), shape=(SOpaque('n'),), dtype=SOpaque('dtype')))
+        S = State(args=(me, SOpaque('var'), {}), lens=lens, idx=idx, arg=arg, inflates=[], unravels=[])
+        S.args[1].attrs['shape'] = ()
+
+        class Acc(Sym):
+            def binop(s, ctx, op, other, reflected):
+                return s
+
+            def sym_iop(s, ctx, op, rhs):
+                return s
+
+            def getattr(s, ctx, name):
+                if name == 'dtype':
+                    return lambda ctx, x: x
+                raise Unsupported(name)
+
+        def Inflate(ctx, f, index, length):
+            S.inflates.append((index, length))
+            return Acc()
+
+        def unravel(ctx, f, axis, shape):
+            S.unravels.append((axis, shape))
+            return Acc()
+        S.globals = {'iszero': lambda ctx, x: True, 'derivative': lambda ctx, *a: Acc(), 'Zeros': lambda ctx, *a: Acc(), 'Monomial': lambda ctx, *a: Acc(),
+                     'Diagonalize': lambda ctx, m: m, 'Inflate': Inflate, 'unravel': unravel, 'einsum': lambda ctx, *a: Acc()}
+        return S
+
+    def ensures(self, cx, S, result):
+        from contracts.ravel import rowmajor
+        from contracts.C01 import IR
+        from pyvc.values import zint
+        if len(S.inflates) != 1 or len(S.unravels) != 1:
+            return [('one-scatter-per-argument', z3.BoolVal(False))]
+        index, length = S.inflates[0]
+        flat, size = rowmajor([x.val for x in S.idx], [l.val for l in S.lens])
+        iv = index.val if isinstance(index, IR) else zint(index)
+        lv = length.val if isinstance(length, IR) else zint(length)
+        axis, shape = S.unravels[0]
+        return [('one-scatter-per-argument', z3.BoolVal(True)), ('row-major-ravel-index', iv == flat), ('scatter-length-is-size', lv == size),
+                ('unravelled-to-the-argument-shape', z3.BoolVal(axis == -1 and tuple(shape) == tuple(S.lens)))]
+
+    def replay(self, ob):
+        return _script('monomial_derivative()')
+
+
 def contracts():
-    cs = []
+    cs = [MonomialDerivative(1), MonomialDerivative(2), MonomialDerivative(3)]
     for spelling in ('dict', 'pairs', 'str', 'strs'):
         for keykind in ('name', 'argument', 'other'):
             for valkind in ('name', 'argument', 'array'):
@@ -366,6 +430,7 @@ def contracts():
             cs.append(ReplaceInit(spelling, valkind))
     cs += [JoinArguments(), ArgumentsFor()]
     return cs
+
 
 
 TRUSTED = ['pyvc symbolic executor and its Python model; dicts with symbolic keys read as association lists',
